@@ -37,7 +37,9 @@ def obligations(tier):
            bounds="3 real objects x every path with its last 1..3 characters cut off (a near miss) placed before / between / after valid selectors x validate, get_markings, "
                   "is_marked, add_markings (object and dict), parse (one entry and two entries)"),
         CH("objects_embedded_and_extensions", H, "sel_objects", t, mode="E1s", functions=F + ["stix2.markings.add_markings", "stix2.parsing.parse"],
-           bounds="3 real objects x (every path of their JSON + 10 near misses); validate, add/get/is_marked/set/remove/clear_markings on unmarked and marked objects, parse with granular_markings"),
+           bounds="5 real objects (one of a type declared with extension_name, one that stores the SAME embedded object / dictionary instance at several places) x (every path of their JSON + 10 near misses); validate, add/get/is_marked/set/remove/clear_markings on unmarked and marked objects, parse with granular_markings"),
+        CH("shared_containers_in_dictionaries", H, "shared_dict_selectors", t, mode="E1s", functions=F + ["stix2.markings.utils.iterpath"],
+           bounds="a plain dictionary in which one dictionary instance occurs at 3 places and one embedded object twice x (every path of its JSON + 10 near misses) x validate / add / get / is_marked / set / parse / constructor"),
         CH("construction_checks_selectors_every_class", H, "sel_construction", t, mode="E1s", functions=F + ["stix2.base._STIXBase._check_object_constraints"],
            bounds="enriched instance of each of 59 classes (both versions) that defines granular_markings x 2 addressing selectors and 4 near misses x (parse, constructor): accepted exactly when the selector addresses something"),
     ] + ([CH("every_class_every_path_p%d" % q, H, "sel_all_classes", t, mode="E1s", functions=F, env={"VERIF_PART": str(q)},
